@@ -504,6 +504,9 @@ struct Ctx {
     too_deep: IndexSet<String>,
     /// how many instances each generic function has been given so far
     instance_counts: IndexMap<String, usize>,
+    /// what the function being specialised binds itself (parameters, `let`s, closure parameters):
+    /// a variable of one of these names is that local, whatever functions there are of that name
+    locals: IndexSet<String>,
 }
 
 /// A function that calls itself at an ever larger type (`f[T]` calling `f[(T, T)]`) has no finite
@@ -559,6 +562,7 @@ impl Ctx {
             inherent_method_index,
             too_deep: IndexSet::new(),
             instance_counts: IndexMap::new(),
+            locals: IndexSet::new(),
         }
     }
 
@@ -604,8 +608,12 @@ fn mono_expr(ctx: &mut Ctx, e: &core::Expr, s: &Subst) -> MonoExpr {
             let new_ty = subst_ty(&ty, s);
             // A generic function used as a value (`let f: (int32) -> int32 = id;`) is
             // instantiated at the function type the context gives it.
+            // (A local is never one: under separate compilation the temporaries of a package are
+            // numbered before the items of the other packages are known, so a library's `x0` can
+            // stand next to `fn x0[T]` of Main.)
             if let Ty::TFunc { params, ret_ty } = &new_ty
                 && !has_tparam(&new_ty)
+                && !ctx.locals.contains(name)
                 && let Some(callee) = ctx.orig_fns.get(name).or_else(|| {
                     // a method of a generic inherent impl is named by base type and method
                     parse_inherent_method_fn_name(&name).and_then(|(base_type, method_name)| {
@@ -669,6 +677,7 @@ fn mono_expr(ctx: &mut Ctx, e: &core::Expr, s: &Subst) -> MonoExpr {
         core::Expr::EClosure { params, body, ty } => {
             let new_params: Vec<tast::ClosureParam> =
                 params.iter().map(|p| subst_closure_param(p, s)).collect();
+            ctx.locals.extend(params.iter().map(|p| p.name.clone()));
             let new_body = mono_expr(ctx, &body, s);
             let new_ty = subst_ty(&ty, s);
             MonoExpr::EClosure {
@@ -682,12 +691,16 @@ fn mono_expr(ctx: &mut Ctx, e: &core::Expr, s: &Subst) -> MonoExpr {
             value,
             body,
             ty,
-        } => MonoExpr::ELet {
-            name: name.clone(),
-            value: Box::new(mono_expr(ctx, &value, s)),
-            body: Box::new(mono_expr(ctx, &body, s)),
-            ty: subst_ty(&ty, s),
-        },
+        } => {
+            let value = Box::new(mono_expr(ctx, &value, s));
+            ctx.locals.insert(name.clone());
+            MonoExpr::ELet {
+                name: name.clone(),
+                value,
+                body: Box::new(mono_expr(ctx, &body, s)),
+                ty: subst_ty(&ty, s),
+            }
+        }
         core::Expr::EMatch {
             expr,
             arms,
@@ -769,6 +782,15 @@ fn mono_expr(ctx: &mut Ctx, e: &core::Expr, s: &Subst) -> MonoExpr {
                     ty: new_ty,
                 };
             };
+
+            // a local that holds a function is called as it is, whatever functions share its name
+            if ctx.locals.contains(func_name) {
+                return MonoExpr::ECall {
+                    func: Box::new(new_func),
+                    args: new_args,
+                    ty: new_ty,
+                };
+            }
 
             // If function is not in current file (runtime/built-in), leave as is
             // For inherent methods, try to find generic version if exact match fails
@@ -1443,6 +1465,7 @@ pub fn mono_with_all_diagnostics(
             .map(|(n, t)| (n.clone(), subst_ty(t, &s)))
             .collect();
         let new_ret = subst_ty(&orig_ret, &s);
+        ctx.locals = orig_params.iter().map(|(n, _)| n.clone()).collect();
         let new_body = mono_expr(&mut ctx, &orig_body, &s);
 
         ctx.out.push(MonoFn {
